@@ -99,6 +99,31 @@ Definition mstep_ev (p : prog) (k : kind) (t : nat) (m : mstate) : option (mstat
   | None => None
   end.
 
+(* one SCHEDULER step of thread t: its next access, and -- because the real code has no
+   scheduling point between the load and the store of ++lock_count_ / --lock_count_ -- the
+   store half as well when the access was the load half.  Each micro step is judged. *)
+Definition mid_rmw (s : state) (t : nat) : bool :=
+  match tget s t with
+  | Some ts => match foc ts with FIncW _ _ | FDecW _ _ _ => true | _ => false end
+  | None => false
+  end.
+
+Definition adv (p : prog) (k : kind) (t : nat) (m : mstate) : option (mstate * option reason) :=
+  match mstep_ev p k t m with
+  | None => None
+  | Some (m1, ev1) =>
+      match judge p k m t ev1 m1 with
+      | Some why => Some (m1, Some why)
+      | None =>
+          if mid_rmw (fst m1) t then
+            match mstep_ev p k t m1 with
+            | Some (m2, ev2) => Some (m2, judge p k m1 t ev2 m2)
+            | None => Some (m1, None)
+            end
+          else Some (m1, None)
+      end
+  end.
+
 (* depth-first search; returns the schedule (in order) and the reason *)
 Fixpoint dfs (p : prog) (k : kind) (n : nat) (d : nat) (m : mstate) (pre : list nat)
   : option (list nat * reason) :=
@@ -111,12 +136,9 @@ Fixpoint dfs (p : prog) (k : kind) (n : nat) (d : nat) (m : mstate) (pre : list 
          | t :: r =>
              let here :=
                if wb_ok k (fst m) t then
-                 match mstep_ev p k t m with
-                 | Some (m', ev) =>
-                     match judge p k m t ev m' with
-                     | Some why => Some (rev (t :: pre), why)
-                     | None => dfs p k n d' m' (t :: pre)
-                     end
+                 match adv p k t m with
+                 | Some (m', Some why) => Some (rev (t :: pre), why)
+                 | Some (m', None) => dfs p k n d' m' (t :: pre)
                  | None => None
                  end
                else None in
@@ -132,12 +154,9 @@ Fixpoint judge_run (p : prog) (k : kind) (sched : list nat) (m : mstate) (i : na
   match sched with
   | [] => None
   | t :: r =>
-      match mstep_ev p k t m with
-      | Some (m', ev) =>
-          match judge p k m t ev m' with
-          | Some why => Some (S i, why)
-          | None => judge_run p k r m' (S i)
-          end
+      match adv p k t m with
+      | Some (m', Some why) => Some (S i, why)
+      | Some (m', None) => judge_run p k r m' (S i)
       | None => judge_run p k r m (S i)
       end
   end.
